@@ -2,6 +2,7 @@ package main
 
 import (
 	"fmt"
+	"os"
 	"go/types"
 	"strings"
 
@@ -42,10 +43,27 @@ func (v *Verifier) call(st *State, in *ssa.Call) bool {
 		}
 	}
 	v.safety(st, in, "nilcall", Neq(f, IntLit(0)))
-	// unknown function value: use a named function-value contract if any
-	key := "funcval:" + v.fnLabelTop(st) + ":" + cc.Value.Name()
-	if c := v.P.Contracts[key]; c != nil {
-		return v.applyContract(st, in, c, nil, cc.Signature(), args)
+	// unknown function value loaded from a struct field: a named function-value contract
+	// "funcval pkg.Type.field (self, args...)" may describe it (self is the struct).
+	if u, ok := cc.Value.(*ssa.UnOp); ok {
+		if fa, ok := u.X.(*ssa.FieldAddr); ok {
+			st0 := elemType(fa.X.Type())
+			if named, ok := st0.(*types.Named); ok {
+				fld := named.Underlying().(*types.Struct).Field(fa.Field)
+				key := "funcval:" + named.Obj().Pkg().Name() + "." + named.Obj().Name() + "." + fld.Name()
+				if c := v.P.Contracts[key]; c != nil {
+					self := st.load(v.val(st, fa.X), sortOf(st0))
+					sig := cc.Signature()
+					ps := []*types.Var{types.NewVar(0, nil, "self", st0)}
+					for i := 0; i < sig.Params().Len(); i++ {
+						ps = append(ps, sig.Params().At(i))
+					}
+					sig2 := types.NewSignatureType(nil, nil, nil, types.NewTuple(ps...), sig.Results(), false)
+					v.assumeNote("function value " + key + " assumed to satisfy its funcval contract (established where the struct is built)")
+					return v.applyContract(st, in, c, nil, sig2, append([]*Term{self}, args...))
+				}
+			}
+		}
 	}
 	v.assumeNote("call through unknown function value in " + v.fnLabelTop(st) + " havocs its results only")
 	v.bindResults(st, in, cc.Signature(), nil)
@@ -352,6 +370,16 @@ func (v *Verifier) applyContract(st *State, in *ssa.Call, c *Contract, fn *ssa.F
 					continue
 				}
 			}
+			if cell, ref, et, ok := evalModTarget(env, m); ok {
+				f := Fresh("cell", cell)
+				if et != nil {
+					for _, t := range typeInv(f, et, 0) {
+						st.assume(t)
+					}
+				}
+				st.setHeap(cell, Store(st.getHeap(cell), ref, f))
+				continue
+			}
 			cell := v.cellSortByName(c.Pkg.Types, m)
 			old := st.getHeap(cell)
 			isAllocOnly := false
@@ -389,6 +417,35 @@ func (v *Verifier) applyContract(st *State, in *ssa.Call, c *Contract, fn *ssa.F
 		st.assume(env.evalBool(e.Expr))
 		v.assumeNote("history variable defined by contract of " + c.Key + ": " + e.Text)
 	}
+	// a result the contract pins to a term (r == t) is replaced by that term, so that
+	// structured values (e.g. literal ++ decimal strings) stay visible to the models
+	for _, r := range rs {
+		if r.Op != "var" {
+			continue
+		}
+		for _, t := range st.pc {
+			if t.Op == "=" && (t.Args[0] == r || t.Args[1] == r) {
+				o := t.Args[0]
+				if o == r {
+					o = t.Args[1]
+				}
+				if !mentions(o, r) && (o.Sort == SString || o.ground) {
+					st.substVar(r, o)
+					break
+				}
+			}
+		}
+	}
+	rs2 := rs[:0:0]
+	for range rs {
+		rs2 = append(rs2, nil)
+	}
+	if len(rs) == 1 {
+		rs = []*Term{st.env[in]}
+	} else if len(rs) > 1 {
+		rs = st.env[in].Args
+	}
+	_ = rs2
 	// references returned are allocated
 	for i, r := range rs {
 		for _, t := range st.refBound(r, res.At(i).Type(), 0) {
@@ -428,4 +485,35 @@ func indexOf(xs []string, x string) int {
 		}
 	}
 	return -1
+}
+
+// evalModTarget evaluates a modifies item as an expression denoting one heap
+// cell: a pointer (its pointee) or a slice (its backing array).
+func evalModTarget(env *SpecEnv, item string) (cell *Sort, ref *Term, elemT types.Type, ok bool) {
+	if strings.HasPrefix(item, "[]") || strings.HasPrefix(item, "*") {
+		return nil, nil, nil, false
+	}
+	x, err := parseSpecExpr(item)
+	if err != nil {
+		return nil, nil, nil, false
+	}
+	defer func() {
+		if r := recover(); r != nil {
+			if os.Getenv("GOVC_DEBUG") != "" {
+				fmt.Fprintln(os.Stderr, "evalModTarget:", item, r)
+			}
+			ok = false
+		}
+	}()
+	v := env.eval(x)
+	if v.Ty == nil {
+		return nil, nil, nil, false
+	}
+	switch u := v.Ty.Underlying().(type) {
+	case *types.Pointer:
+		return sortOf(u.Elem()), v.T, u.Elem(), true
+	case *types.Slice:
+		return ArraySort(SInt, sortOf(u.Elem())), Sel(v.T, 0), nil, true
+	}
+	return nil, nil, nil, false
 }
